@@ -170,6 +170,7 @@ def run_check(mod, tier, seed, only=None):
     jobs = mod.plan(tier, seed)
     if only is not None:
         jobs = [j for i, j in enumerate(jobs) if i in only]
+        os.environ.setdefault("VERIF_EVIDENCE_DIR", "/tmp/partial_evidence")  # a debugging run of some jobs is no evidence
     total = Result()
     nproc = min(NPROC, max(1, len(jobs)))
     try:
